@@ -263,6 +263,25 @@ CHECKS = {
              'exploration.',
         note='start-up = deploy.update_database() with the per-process flags '
              'reset; partial databases made with raw SQL; SQLite'),
+    'C11': dict(
+        engine='api-state-machine', category='exploration', design='4.C11',
+        technique='model-based stateful property-based testing: a reference '
+                  'model of the API (pv/model.py, written from the API '
+                  'reference) predicts the allowed statuses, the state '
+                  'transition and every read view; compared with the real '
+                  'responses and raw rows after every step, plus cross-view '
+                  'identities on read sweeps',
+        text='Random histories over all routes and microversions 1.0-1.39 '
+             '(valid requests and named single-defect variants) interleaved '
+             'with reads of every view: status must be one the documented '
+             'meaning prescribes, a success must transform the raw rows '
+             'exactly as the model says, a refusal must leave them unchanged, '
+             'each GET body must equal the view derived from the rows, and '
+             'provider usages / per-provider / per-consumer / per-project '
+             'views must agree with each other. Bounded random exploration.',
+        note='trusted: pv/model.py; where the documents leave the error '
+             'status open the model accepts each documented one; generation '
+             'values are taken from the rows (their evolution is C10); SQLite'),
 }
 
 NOT_APPLICABLE = {}
